@@ -230,9 +230,12 @@ def family(tier, seed, only=None):
 def build_oracle(log):
     cd = core.crate_dir("C03")
     td = os.path.join(core.target_dir("C03"), "native")
-    rc, out, dt = core.sh(["cargo", "build", "--release", "--offline", "--bin", "oracle", "--target-dir", td], cwd=cd, timeout=1200)
+    for attempt in (1, 2):
+        rc, out, dt = core.sh(["cargo", "build", "--release", "--offline", "--bin", "oracle", "--target-dir", td], cwd=cd, timeout=1800)
+        if rc == 0:
+            break
+        log("native oracle build attempt %d failed (rc %s):\n%s" % (attempt, rc, out[-2500:]))
     if rc != 0:
-        log("native oracle does not build:\n" + out[-3000:])
         return None
     return os.path.join(td, "release", "oracle")
 
